@@ -837,11 +837,15 @@ def b_str(I, st, args, kw, node):
     return VStr(z3.Int(fresh_name("str")))
 
 
+_PYROUND = z3.Function("pyround", z3.RealSort(), z3.IntSort(), z3.RealSort())
+
+
 def b_round(I, st, args, kw, node):
-    used("round(x, p): uninterpreted function of (x, p)")
+    used("round(x, p): uninterpreted function of (x, p) - NOT np.round (the built-in rounds the exact decimal value of the "
+         "double, NumPy scales and rounds half to even: round(0.05, 1) = 0.1, np.round(0.05, 1) = 0.0)")
     x = args[0]
     p = args[1] if len(args) > 1 else 0
-    return _UROUND(to_real(x), to_z3(p))
+    return _PYROUND(to_real(x), to_z3(p))
 
 
 def b_sum(I, st, args, kw, node):
